@@ -888,6 +888,36 @@ def validFrom : Phase → List Op → Option Phase
   | ph, [] => some ph
   | ph, op :: rest => if opOk op then (phaseNext ph op).bind (validFrom · rest) else none
 
+/-- The protocol the property's quantifier spans ("control settings, pen changes, pause/resume cycles in any
+    order"): operations may also come between pause and resume.  `pausedOps`: paused, and the program has
+    called the library since (what it switched on then is on the terminal now; teardown or destruction
+    has to switch it back, resume has to re-establish the logical modes and pen). -/
+inductive PhaseW | running | paused | pausedOps | stopped
+deriving DecidableEq, Repr
+
+def PhaseW.ofPhase : Phase → PhaseW
+  | .running => .running
+  | .paused => .paused
+  | .stopped => .stopped
+
+/-- The wide protocol: between pause and resume anything but a second pause; after teardown nothing (but
+    destruction); no resume without a pause. `none`: the history leaves the contract. -/
+def phaseNextW : PhaseW → Op → Option PhaseW
+  | .running, .pause => some .paused
+  | .running, .teardown => some .stopped
+  | .running, .resume => none
+  | .running, _ => some .running
+  | .stopped, _ => none
+  | _, .resume => some .running
+  | _, .teardown => some .stopped
+  | _, .pause => none
+  | _, _ => some .pausedOps
+
+/-- Phase after a history that stays inside the wide contract. -/
+def validFromW : PhaseW → List Op → Option PhaseW
+  | ph, [] => some ph
+  | ph, op :: rest => if opOk op then (phaseNextW ph op).bind (validFromW · rest) else none
+
 /-- The pen the program has asked for: `setpen p` names every attribute, `chpen p` those present. -/
 def logicalPen (isSet : Bool) (cur pen : PenMap) : PenMap :=
   fun a => if isSet then some (pen.getD a) else (match pen a with
@@ -974,5 +1004,37 @@ def getctlOk (d : XDrv) (g : Ghost) : Bool :=
     cursor visible, no mouse reporting, numeric keypad; blink, shape and DECLRMM are free. -/
 def VModes.standard (m : VModes) : Bool :=
   !m.altscreen && m.cursorVisible && m.mouse == 0 && !m.sgrMouse && !m.keypadApp
+
+/-! ### the mode state at hand-over as a parameter of the history -/
+
+/-- The mode state a terminal may be handed over in: primary screen, no mouse reporting, numeric keypad; the
+    cursor may be visible or hidden (a program that hid it and then starts the library); blink, shape and
+    DECLRMM are free. -/
+def VModes.handover (m : VModes) : Bool :=
+  !m.altscreen && m.mouse == 0 && !m.sgrMouse && !m.keypadApp
+
+/-- Does the operation set cursor visibility through the control interface - directly, or through the toplevel
+    instance's setup (a `tick` that may run `setupterm`)? -/
+def touchesVis : Op → Bool
+  | .ctl (some .cursorvis) _ => true
+  | .tick nosetup => !nosetup
+  | _ => false
+
+/-- The replies the history feeds are those of a terminal handed over in mode state `m0`: the DECRPM reply to the
+    start-up query `CSI ? 25 $ p` says "set" (1) for a visible cursor and "reset" (2) for a hidden one.  (The
+    query is the first thing the library writes, so the reply describes the hand-over state whenever it is read.) -/
+def replyConsistent (m0 : VModes) : Op → Bool
+  | .replyMode m v => if m = 25 then (if m0.cursorVisible then decide (v = 1) else decide (v = 2)) else true
+  | _ => true
+
+/-- The contract about the hand-over state: consistent replies; and on a terminal handed over with its cursor
+    hidden the program leaves cursor visibility alone (hidden is then not a mode "the library switched on": the
+    driver's shadow records one bit per mode, assumed off at start, and has no record of what to go back to). -/
+def handoverOk (m0 : VModes) (op : Op) : Bool :=
+  replyConsistent m0 op && (m0.cursorVisible || !touchesVis op)
+
+/-- The ghost at hand-over: the logical cursor visibility of a program that never sets it is the one the terminal
+    was handed over with. -/
+def Ghost.handover (m0 : VModes) : Ghost := { vis := if m0.cursorVisible then 1 else 0 }
 
 end Tickit.Modes
